@@ -47,6 +47,28 @@ where
         }
         parse_chunk_size(&self.buffer)
     }
+
+    fn refill(&mut self) -> io::Result<()> {
+        const MAX_BUFFER_LEN: usize = 64 * 1024;
+
+        if self.remaining == 0 {
+            self.remaining = self.read_chunk_size()?;
+            if self.remaining == 0 {
+                self.reached_eof = true;
+            }
+        }
+
+        self.buffer.resize(cmp::min(self.remaining, MAX_BUFFER_LEN), 0);
+        self.inner.read_exact(&mut self.buffer)?;
+        self.consumed = 0;
+        self.remaining -= self.buffer.len();
+
+        if self.remaining == 0 && !buffers::read_line_ending(&mut self.inner)? {
+            return Err(InvalidResponseKind::Chunk.into());
+        }
+
+        Ok(())
+    }
 }
 
 impl<R> BufRead for ChunkedReader<R>
@@ -54,26 +76,16 @@ where
     R: Read,
 {
     fn fill_buf(&mut self) -> io::Result<&[u8]> {
-        const MAX_BUFFER_LEN: usize = 64 * 1024;
-
         if self.buffer.len() == self.consumed && !(self.remaining == 0 && self.reached_eof) {
-            if self.remaining == 0 {
-                self.remaining = self.read_chunk_size()?;
-                if self.remaining == 0 {
-                    self.reached_eof = true;
-                }
-            }
-
-            self.buffer.resize(cmp::min(self.remaining, MAX_BUFFER_LEN), 0);
-            self.inner.read_exact(&mut self.buffer)?;
-            self.consumed = 0;
-            self.remaining -= self.buffer.len();
-
-            if self.remaining == 0 && !buffers::read_line_ending(&mut self.inner)? {
+            if let Err(err) = self.refill() {
+                // The framing is lost: `buffer` may hold a chunk-size line or a partial chunk.
+                // Never hand those bytes out, not even if the caller reads again after the error.
                 self.buffer.clear();
+                self.consumed = 0;
+                self.remaining = 0;
                 self.reached_eof = true;
 
-                return Err(InvalidResponseKind::Chunk.into());
+                return Err(err);
             }
         }
 
